@@ -2,7 +2,12 @@
  *  tb <algo> <max> <ops>                 ops ';'-separated: h:<lvl>:<imprint> | m:<lvl>:<cidhex>:<payloadhex> | c
  *  bs <algo> <prev|-> <iv|-> <ops>       ops: a:<lvl>:<imprint>:<cidhex|->:<payloadhex|-> | r | x:<max> | c
  *  =>  <st,st,...> <rootLevel|-> <rootImprint|-> <prevLeaf|-> <leaf> <leaf> ...
- *      leaf = <k>/<level>/<inputImprint|M>/<links>   links: ';'-separated L|R:<lc>:i|m:<hex>  ('-' none) */
+ *      leaf = <k>/<level>/<inputImprint|M>/<links>   links: ';'-separated L|R:<lc>:i|m:<hex>  ('-' none)
+ *      bs, after a closed block: " SIG" then per leaf G<status of KSI_BlockSignerHandle_getSignature>:<internal verification of the leaf's
+ *      signature for the leaf's hash and level>:<1 when the signature's chains, aggregated as every verification does from level 0 (the leaf's level is in the first level
+ *      correction), end in the value
+ *      the aggregator's signature of the block's root ends in> — the block's root signature is one aggregation chain above
+ *      (root hash, root level), as an aggregator returns it for that request */
 #include "common.h"
 #include <ksi/blocksigner.c>
 #include <ksi/tree_builder.h>
@@ -10,6 +15,8 @@
 #include <ksi/fast_tlv.h>
 #include <ksi/impl/meta_data_element_impl.h>
 #include <ksi/impl/meta_data_impl.h>
+#include <ksi/impl/signature_impl.h>
+#include <ksi/policy.h>
 
 static KSI_CTX *ctx;
 
@@ -64,8 +71,11 @@ static void dump_leaf(size_t k, KSI_TreeLeafHandle *lh) {
 	}
 	/* the library's own aggregation of the chain it handed out must reproduce its root */
 	if (node && node->hash && g_root && n > 0) {   /* an empty chain (single-leaf tree) has nothing to aggregate */
-		KSI_DataHash *out = NULL; int end = -1;
-		int r = KSI_AggregationHashChain_aggregate(ch, (int)node->level, &end, &out);
+		KSI_DataHash *out = NULL; int end = -1; int r;
+		/* the same chain object aggregated from another level first: the answer for the leaf's level must not be that one's */
+		r = KSI_AggregationHashChain_aggregate(ch, node->level == 0 ? 1 : 0, &end, &out);
+		KSI_DataHash_free(out); out = NULL; end = -1;
+		r = KSI_AggregationHashChain_aggregate(ch, (int)node->level, &end, &out);
 		printf("/A%d:%d", r, (r == KSI_OK && end == (int)g_rootLevel && KSI_DataHash_equals(out, g_root)) ? 1 : 0);
 		KSI_DataHash_free(out);
 	} else printf("/A-");
@@ -136,6 +146,40 @@ static void do_line(char *work, const char *orig) {
 		putchar(' '); put_hash(bs->prevLeaf);
 		g_root = bs->builder->rootNode ? bs->builder->rootNode->hash : NULL; g_rootLevel = bs->builder->rootNode ? bs->builder->rootNode->level : 0;
 		if (bs->builder->rootNode) for (i = 0; i < nl; i++) dump_leaf(i, bh[i]->leafHandle);
+		if (bs->builder->rootNode && bs->builder->rootNode->hash && nl > 0 && bs->signature == NULL && bs->builder->rootNode->level < 255) {   /* nothing can be aggregated above level 255 */
+			/* the aggregator's answer for (root, root level): one chain, one left link, no calendar yet */
+			unsigned char raw[512], chain[400], link[80]; size_t cl = 0, ll = 0, rl = 0; const unsigned char *imp = NULL; size_t il = 0; KSI_Signature *rootSig = NULL;
+			KSI_DataHash *top0 = NULL; int lvl = (int)bs->builder->rootNode->level;
+			KSI_DataHash_getImprint(bs->builder->rootNode->hash, &imp, &il);
+			if (lvl > 0) { link[ll++] = 0x01; link[ll++] = 1; link[ll++] = (unsigned char)lvl; }      /* the aggregator accounts for the input's height */
+			link[ll++] = 0x02; link[ll++] = 33; link[ll++] = 1; memset(link + ll, 0x5a, 32); ll += 32;
+			chain[cl++] = 0x02; chain[cl++] = 4; chain[cl++] = 0x59; chain[cl++] = 0x68; chain[cl++] = 0x2f; chain[cl++] = 0x00;      /* aggregation time */
+			chain[cl++] = 0x03; chain[cl++] = 1; chain[cl++] = 3;                                                                 /* chain index: one left link */
+			chain[cl++] = 0x05; chain[cl++] = (unsigned char)il; memcpy(chain + cl, imp, il); cl += il;
+			chain[cl++] = 0x06; chain[cl++] = 1; chain[cl++] = 1;
+			chain[cl++] = 0x07; chain[cl++] = (unsigned char)ll; memcpy(chain + cl, link, ll); cl += ll;
+			raw[rl++] = 0x88; raw[rl++] = 0x00; raw[rl++] = 0; raw[rl++] = (unsigned char)(cl + 4);
+			raw[rl++] = 0x88; raw[rl++] = 0x01; raw[rl++] = 0; raw[rl++] = (unsigned char)cl; memcpy(raw + rl, chain, cl); rl += cl;
+			r = KSI_Signature_parseWithPolicy(ctx, raw, rl, KSI_VERIFICATION_POLICY_EMPTY, NULL, &rootSig);
+			printf(" SIG");
+			if (r != KSI_OK) printf("-ROOT-PARSE-%d", r);
+			else {
+				bs->signature = rootSig;
+				KSI_AggregationHashChainList_aggregate(rootSig->aggregationChainList, ctx, 0, &top0);
+				for (i = 0; i < nl; i++) {
+					KSI_Signature *ls = NULL; KSI_TreeNode *node = NULL; int v = -1, same = 0; KSI_DataHash *top = NULL;
+					KSI_TreeLeafHandle_getTreeNode(bh[i]->leafHandle, &node);
+					r = KSI_BlockSignerHandle_getSignature(bh[i], &ls);
+					if (r == KSI_OK && ls != NULL && node != NULL && node->hash != NULL) {
+						v = KSI_Signature_verifyWithPolicy(ls, node->hash, node->level, KSI_VERIFICATION_POLICY_INTERNAL, NULL);
+						if (KSI_AggregationHashChainList_aggregate(ls->aggregationChainList, ctx, 0, &top) == KSI_OK) same = top0 != NULL && KSI_DataHash_equals(top, top0);
+					}
+					printf(" G%d:%d:%d", r, v, same);
+					KSI_DataHash_free(top); KSI_Signature_free(ls);
+				}
+			}
+			KSI_DataHash_free(top0);
+		}
 		for (i = 0; i < nl; i++) KSI_BlockSignerHandle_free(bh[i]);
 		KSI_BlockSigner_free(bs);
 	} else printf("UNKNOWN-OP");
